@@ -731,6 +731,11 @@ pub fn explore_scheme<S: Sch>(tier: Tier, rep: &mut Report) -> Vec<Node<S>> {
     };
     match tier {
         Tier::Quick => {
+            // quick: the full alphabet from half of the boundary records (thorough: from all of them)
+            let quick_roots = [
+                "minimal", "all6+custom", "client+nested", "minimal@seq127", "minimal@seq2^64-2", "minimal@seq2^64-1", "pad298", "pad300", "pad299@seq127", "pad300@seq255", "pad300@seq65535",
+            ];
+            let roots: Vec<Node<S>> = roots.into_iter().filter(|n| quick_roots.contains(&n.init.as_str())).collect();
             out.extend(bfs::<S>(roots, &full, &Explore { depth: 1, faults: true, max_states: 400_000, label: "full".into(), keep_all: false }, rep));
             let ci = core_inits();
             let r2 = clone_roots(Some(&ci), rep);
